@@ -704,7 +704,11 @@ func (messagesMapper) Save(msg *types.Message, attachmentURLs []string, readBySe
 			}
 		}
 		if len(attachments) > 0 {
-			return adp.FileLinkAttachments("", types.ZeroUid, msg.Uid(), attachments), markedReadBySender
+			// The message is already saved under its SeqId. Failing the Save now would make the topic
+			// reuse the same SeqId for the next message: report the problem but keep the message.
+			if linkErr := adp.FileLinkAttachments("", types.ZeroUid, msg.Uid(), attachments); linkErr != nil {
+				logs.Warn.Printf("topic[%s]: failed to link attachments to message (seq: %d) - err: %+v", msg.Topic, msg.SeqId, linkErr)
+			}
 		}
 	}
 
